@@ -522,7 +522,7 @@ void ep4_mul_basic(ep4_t r, const ep4_t p, const bn_t k) {
 
 void ep4_mul_slide(ep4_t r, const ep4_t p, const bn_t k) {
 	ep4_t t[1 << (RLC_WIDTH - 1)], q;
-	uint8_t win[RLC_FP_BITS + 1];
+	uint8_t *win = NULL;
 	size_t l;
 
 	ep4_null(q);
@@ -532,6 +532,9 @@ void ep4_mul_slide(ep4_t r, const ep4_t p, const bn_t k) {
 		return;
 	}
 
+	/* The scalar is not reduced (p may lie outside the subgroup). */
+	win = RLC_ALLOCA(uint8_t, bn_bits(k) + 1);
+
 	RLC_TRY {
 		for (size_t i = 0; i < (1 << (RLC_WIDTH - 1)); i ++) {
 			ep4_null(t[i]);
@@ -539,6 +542,10 @@ void ep4_mul_slide(ep4_t r, const ep4_t p, const bn_t k) {
 		}
 
 		ep4_new(q);
+
+		if (win == NULL) {
+			RLC_THROW(ERR_NO_MEMORY);
+		}
 
 		ep4_copy(t[0], p);
 		ep4_dbl(q, p);
@@ -557,7 +564,7 @@ void ep4_mul_slide(ep4_t r, const ep4_t p, const bn_t k) {
 #endif
 
 		ep4_set_infty(q);
-		l = RLC_FP_BITS + 1;
+		l = bn_bits(k) + 1;
 		bn_rec_slw(win, &l, k, RLC_WIDTH);
 		for (size_t i = 0; i < l; i++) {
 			if (win[i] == 0) {
@@ -583,6 +590,7 @@ void ep4_mul_slide(ep4_t r, const ep4_t p, const bn_t k) {
 			ep4_free(t[i]);
 		}
 		ep4_free(q);
+		RLC_FREE(win);
 	}
 }
 
